@@ -235,7 +235,13 @@ def configurations(pid, tier, seed):
                              Scheme=5, EmitSmall=3, **norm, **em(12, 2)), o),
             "c_norm3": (cfg(Dom=(2, 2, 2), InKindSeq=("catp",), InnerKinds=ALLINNER, MaxL=5,
                             MaxIn=3, MaxAr=3, Scheme=4, EmitSmall=0, OnlySD=True, MaxOuts=1,
-                            KSet={2, 1}, **em(40, 4)), o),
+                            KSet={2, 1}, **em(80, 4)), o),
+            "d_one_var": (cfg(Dom=(3,), InKindSeq=("catp",), InnerKinds={"sum", "mix"}, MaxL=5,
+                              MaxIn=3, MaxAr=3, Scheme=4, FreeOrder=True, EmitSmall=3,
+                              OnlySD=True, MaxOuts=1, KSet={1, 2}, **em(8, 2)), o),
+            "e_arity3": (cfg(Dom=(2, 2, 2), InKindSeq=("catp",), InnerKinds={"had", "sum"},
+                             MaxL=5, MaxIn=3, MaxAr=3, Scheme=4, EmitSmall=0, OnlySD=True,
+                             MaxOuts=1, KSet={2, 1}, MaxK=2, EmitFilter="ar3", **em(1, 1)), o),
         }
     raise KeyError(pid)
 
